@@ -40,6 +40,12 @@ CLAIMED = {
     text='Every sequence of enabled edit operations up to depth 4 (sparse start states) / 3 (rich start states) over a universe of 4 block names and 2 rock types - including every block permutation, every connection permutation x reversal subset and every collision-free injective rename map (swaps, cycles, chains) - is replayed from scratch on a real t2grid; after every step the live object is projected and compared with a reference model written from the user guide and the structural invariants of the property are evaluated on it. Random sequences of up to 60 operations on grids built from geometries add minc, +, embed, reorder(geo), check(fix), with the same invariants attached as a quiescent contract to every public mutator. The enumerated sub-space is exhaustive (stated in the evidence); the property as a whole quantifies over unbounded histories, hence exploration.',
     note='Trusted: the reference model in vf/oracle/gridmodel.py. Operations are applied only when their documented precondition holds. Operands of + and embed are judged through the result only (they share block objects with it and are spent). Known finding: rename_rocktype after add_rocktype replaced an in-use rock type.',
     design='DESIGN.md §3 C08'),
+
+ 'C09': dict(
+    technique='runtime before/after monitor: physical signature of the flow network (per-pair area, direction, per-block distance, upper block; per-block volume, rock, centre) compared across real reorder/rename/MINC/embed executions and data-file round trips',
+    text='Grids are generated from rectangular and shipped irregular geometries (all atmosphere types, random surfaces); compositions of 1-4 real operations (random block permutations, connection permutations with random/all reversals, reorder(geo=differently ordered geometry), random one-to-one renames incl. swaps/cycles) are executed and after every step the physical signature computed by the harness is compared with the one before (names mapped through the rename map) - exactly in memory, through the carrying field formats after a data-file write/read. MINC runs with 2-6 fractions summing to <1, 1, >1, 1-3 plane sets, full/partial selections: per original block the continua volumes must sum to the original and match the normalised fractions, the new connections must form one outer-to-inner chain, the original network must be untouched; embed must conserve total volume.',
+    note='Trusted: the signature definition in vf/props/c09.py (upper block = block[1] for a negative gravity cosine; cosines below 1e-9 carry no orientation). MINC interface areas and nodal distances are not checked (the property does not state them).',
+    design='DESIGN.md §3 C09'),
 }
 
 def main():
